@@ -116,3 +116,21 @@ func Flags(args []string) map[string]string {
 	}
 	return m
 }
+
+// Main is the entry point of every per-property harness binary:
+// vh-<ID> <ID> <mode> [--flag value ...]
+func Main() {
+	if len(os.Args) < 2 {
+		fmt.Fprintln(os.Stderr, "usage: vh <PROP> <mode> [--flag value ...]; props:", Names())
+		os.Exit(2)
+	}
+	c, ok := Lookup(os.Args[1])
+	if !ok {
+		fmt.Fprintln(os.Stderr, "unknown property", os.Args[1], "have", Names())
+		os.Exit(2)
+	}
+	if err := c(os.Args[2:]); err != nil {
+		fmt.Fprintf(os.Stderr, "vh %s: %+v\n", os.Args[1], err)
+		os.Exit(2)
+	}
+}
